@@ -131,7 +131,7 @@ class StmtMixin:
     def x_ImportFrom(self, s, st):
         for a in s.names:
             nm = a.asname or a.name
-            st.env[nm] = V(MOD, f'{s.module}.{a.name}')
+            st.env[nm] = self.resolve_dotted(f'{s.module}.{a.name}') if not s.level else V(MOD, f'{s.module}.{a.name}')
         return [Outcome('normal', st)]
 
     def x_Global(self, s, st):
